@@ -919,6 +919,17 @@ func (c *siChild) step(i int, op Op, quiet bool) Ev {
 			}
 			return "accessors-differ"
 		})
+	case "List":
+		each(func(v int, sm *style.StyleManager) string {
+			api := style.NewQuickStyleAPI(sm)
+			n := len(sm.GetAllStyles()) + len(sm.GetHeadingStyles()) + len(api.GetAllStylesInfo()) + len(api.GetHeadingStylesInfo()) +
+				len(api.GetParagraphStylesInfo()) + len(api.GetCharacterStylesInfo())
+			for _, t := range []style.StyleType{style.StyleTypeParagraph, style.StyleTypeCharacter, style.StyleTypeTable, style.StyleTypeNumbering} {
+				n += len(sm.GetStylesByType(t))
+			}
+			_ = n
+			return "ok"
+		})
 	case "CloneDrop":
 		each(func(v int, sm *style.StyleManager) string {
 			cl := sm.Clone()
@@ -1195,6 +1206,20 @@ func siAbstractMutator(name string) bool {
 	return false
 }
 
+var siDeadKeys = map[string]bool{}
+
+// siGraphKey spells the based-on graph of a Load operation (style -> basedOn, masks left out).
+func siGraphKey(load Op) string {
+	defs, _ := load["defs"].([]interface{})
+	var parts []string
+	for _, d := range defs {
+		m := Op(d.(map[string]interface{}))
+		parts = append(parts, m.Str("s")+">"+m.Str("b"))
+	}
+	sort.Strings(parts)
+	return strings.Join(parts, ",")
+}
+
 func runStyleInh(c Case, emit Emitter) {
 	if siS == nil {
 		siS = &siSup{}
@@ -1206,6 +1231,25 @@ func runStyleInh(c Case, emit Emitter) {
 	// logged as "skipped" and the judge ignores them.  Every death costs a process start.
 	var skip []int
 	from := 0
+	// Second budget rule, same spirit: a behaviour that starts by loading a whole registry does not
+	// repeat a resolver call for (based-on graph, queried id) that already failed to come back once in
+	// this process under other attribute masks.  The driver sends all behaviours with the same graph
+	// and queried id to the same process.
+	keyOf := map[int]string{}
+	if len(c.Steps) > 0 && c.Steps[0].Name() == "Load" {
+		g := siGraphKey(c.Steps[0])
+		for i := 1; i < len(c.Steps); i++ {
+			if siAbstractMutator(c.Steps[i].Name()) {
+				break
+			}
+			if siResolver(c.Steps[i].Name()) {
+				keyOf[i] = g + "|" + c.Steps[i].Str("q")
+				if siDeadKeys[keyOf[i]] {
+					skip = append(skip, i)
+				}
+			}
+		}
+	}
 	var pending Ev // event of the step that did not come back, completed by the next child's peek
 	for attempt := 0; ; attempt++ {
 		if attempt > len(c.Steps)+1 {
@@ -1250,6 +1294,9 @@ func runStyleInh(c Case, emit Emitter) {
 			op := c.Steps[i]
 			pending = siBlankEv(c.ID, i, op)
 			pending["ret"], pending["pmsg"] = st, s.lastWords()
+			if k, ok := keyOf[i]; ok {
+				siDeadKeys[k] = true
+			}
 			if siResolver(op.Name()) {
 				for j := i + 1; j < len(c.Steps); j++ {
 					if siAbstractMutator(c.Steps[j].Name()) {
